@@ -146,7 +146,10 @@ def run(ctx):
     jobs = []
     for k, i in enumerate(ids):
         co, no = optims[(k + ctx.seed) % 4]
-        jobs.append((S.scen_text(scens[i], observe=True), NETCFG + ["--cfg=cpu/optim:" + co, "--cfg=network/optim:" + no]))
+        # reading the remaining work brings a lazily updated action up to date: half of the runs read it at every third
+        # clock advance only, so that the lazy bookkeeping is exercised over several steps between two observations
+        jobs.append((S.scen_text(scens[i], observe=1 if (k // 4) % 2 == 0 else 3),
+                     NETCFG + ["--cfg=cpu/optim:" + co, "--cfg=network/optim:" + no]))
     results = S.run_many(ctx, jobs)
     ctx.cov["traces_validated_against_impl"] += len(results)
     ndates = 0
